@@ -349,9 +349,36 @@ func hostile1(r *rand.Rand) string {
 func Names(r *rand.Rand, n int, cls string) []string {
 	out := make([]string, 0, n)
 	used := map[string]bool{}
+	if cls == "hostile" && r.Intn(4) == 0 {
+		cls = "related"
+	}
 	for i := 0; len(out) < n; i++ {
 		var s string
 		switch cls {
+		case "related":
+			// names that are close to each other: same letters in another case, prefixes and extensions of one
+			// another, numbers written differently
+			base := []string{"a", "ab", "tip", "Homo", "x1", "n", "sp"}[(i/9)%7] + strings.Repeat("q", i/63)
+			switch i % 9 {
+			case 0:
+				s = base
+			case 1:
+				s = strings.ToUpper(base)
+			case 2:
+				s = strings.ToUpper(base[:1]) + base[1:] + "_"
+			case 3:
+				s = base + base
+			case 4:
+				s = base + "_1"
+			case 5:
+				s = base + "_10"
+			case 6:
+				s = base + "_01"
+			case 7:
+				s = "_" + base
+			default:
+				s = base + "."
+			}
 		case "hostile":
 			s = hostile1(r)
 			if used[s] {
